@@ -6,6 +6,7 @@
 package main
 
 import (
+	"encoding/json"
 	"fmt"
 	"os"
 	"sort"
@@ -423,6 +424,21 @@ func judge(r *rep.Report, w *world, run []op, ev map[string]interface{}, former 
 			}
 			if len(w.unknown) == 0 && len(fr.Values) != nexec {
 				r.Violate("", fmt.Sprintf("ProcessEvent produced %d action values, expected %d (one action per rule and binding)", len(fr.Values), nexec), wit())
+			}
+			// the same event submitted by a script (as a rule action would) reaches the same rules
+			ej, _ := json.Marshal(ev)
+			x, jerr := w.child.RunJavascript(drv.Ctx(), "var w = Env.ProcessEvent("+string(ej)+"); var ids = []; for (var i = 0; i < w.Children.length; i++) { ids.push(w.Children[i].Rule.Id); }; ids.sort(); JSON.stringify([ids, w.Values.length])", nil, nil, nil)
+			r.Count("events_submitted_by_a_script", 1)
+			direct := []string{}
+			for id := range ids {
+				direct = append(direct, id)
+			}
+			sort.Strings(direct)
+			dj, _ := json.Marshal([]interface{}{direct, len(fr.Values)})
+			if jerr != nil || fmt.Sprint(x) != string(dj) {
+				wt := wit()
+				wt["script_result"], wt["script_error"], wt["direct_result"] = fmt.Sprint(x), drv.ErrStr(jerr), string(dj)
+				r.Violate("", "an event submitted by a script (Env.ProcessEvent) does not reach the rules (or run the actions) that the same event reaches when submitted directly", wt)
 			}
 		}
 	}
